@@ -7,7 +7,7 @@ PROPERTY_ID = "C07"
 RULE = ("for every base tuple (key length x AAD length x ciphertext length): the valid tuple, every single-bit flip of the tag (128), every pair of tag bits (8128, on the base shapes), equal byte deltas in every pair of tag bytes, swapped/rotated/reversed/complemented tags, every single-bit flip of the nonce (96), "
         "of the key (all bits), every bit of ciphertext and AAD when <= 17 bytes else all bits of the first, last and 16-byte-boundary bytes, "
         "truncation/extension by one byte, moving a byte across the AAD/ciphertext boundary in both directions, swapping AAD and ciphertext, zero tag, "
-        "tag of the swapped-length tuple; each case is decided by the one-shot decryptor and by the incremental decryptor in two chunkings (the split one continuing on clones taken in the AAD phase and in the data phase); the "
+        "tag of the swapped-length tuple; each case is decided by the one-shot decryptor and by the incremental decryptor in three chunkings (halves continuing on clones; an odd piece, a 16-multiple piece, the rest) (the split one continuing on clones taken in the AAD phase and in the data phase); the "
         "expected verdict is computed: accept iff supplied tag == model tag of exactly the supplied inputs; non-trivial = mutated case; distinct = program text"
         " Also: the split incremental interface continues on clones taken in the AAD phase and in the data phase; component shards as in C06; the corpus again on the checked-arithmetic and native builds.")
 ASSUMPTIONS = ["python RFC 8439 AEAD model as in C06", "ciphertext/AAD content from the pattern alphabet; bit positions beyond the first/last/boundary bytes of long inputs are not flipped"]
@@ -25,7 +25,7 @@ def extra_builds(tier):
 
 def bounds(tier):
     return {"shapes": "{0,1,16,17,64}^2" + (" + {15,63,65,257} crosses" if tier == "thorough" else ""), "tag_bits": 128, "nonce_bits": 96,
-            "key_bits": "all", "interfaces": ["one-shot", "incremental whole", "incremental split"]}
+            "key_bits": "all", "interfaces": ["one-shot", "incremental whole", "incremental halves on clones", "incremental odd + 16-multiple + rest"]}
 
 
 def validate_models(tier):
@@ -73,6 +73,15 @@ def programs(kl, key, nonce, aad, ct, tag):
     inc2 = ["actx_new s0 20 %s %s" % (H(key), H(nonce)), "actx_aad s0 %s" % H(aad[:a2]), "aclone s0 s1", "actx_aad s1 %s" % H(aad[a2:]), "actx_todec s1",
             "adec_mut s1 %s" % H(ct[:c2]), "aclone s1 s2", "adec_mut s2 %s" % H(ct[c2:]), "adec_fin s2 %s" % H(tag)]
     out.append((inc2, "inc2"))
+    # an odd first piece followed by a piece that is a multiple of 16 (and of 64) bytes, then the rest: pieces that are "aligned" in length
+    # while the running byte count is not
+    a1 = min(1, len(aad))
+    a2 = a1 + 16 * ((len(aad) - a1) // 16)
+    c1 = min(3, len(ct))
+    c2 = c1 + 16 * ((len(ct) - c1) // 16)
+    inc3 = ["actx_new s0 20 %s %s" % (H(key), H(nonce)), "actx_aad s0 %s" % H(aad[:a1]), "actx_aad s0 %s" % H(aad[a1:a2]), "actx_aad s0 %s" % H(aad[a2:]), "actx_todec s0",
+            "adec s0 %s" % H(ct[:c1]), "adec_mut s0 %s" % H(ct[c1:c2]), "adec s0 %s" % H(ct[c2:]), "adec_fin s0 %s" % H(tag)]
+    out.append((inc3, "inc3"))
     return out
 
 
